@@ -60,7 +60,10 @@ def run_under_backend(src, inputs, mode='to_graph', feats=()):
           # the quantifier is total programs; a raising/timeout original is a generator slip
           res['counters']['original_not_total'] = res['counters'].get('original_not_total', 0) + 1
           continue
-        c = diff.run(g, mc, a, unwrap_convert=unwrap)
+        c = diff.run(g, mc, a, unwrap_convert=unwrap, timeout=20)
+        if c['kind'] == 'timeout':
+          res['counters']['watchdog_inconclusive'] = res['counters'].get('watchdog_inconclusive', 0) + 1
+          continue
         runs += 1
         bad = diff.compare(o, c)
         if bad:
